@@ -1792,10 +1792,9 @@ func (a *Authenticator) setupStreamEncryption(negotiation *SecurityNegotiation) 
 		// Parse the peer's public key and perform ECDH key exchange
 		sharedSecret, err := a.performECDHKeyExchange(clientKey, serverKey, negotiation.IsClient)
 		if err != nil {
-			// If ECDH fails, log but don't fail the entire handshake
-			// This allows tests with placeholder keys to work
-			slog.Debug(fmt.Sprintf("⚠️  CRYPTO: ECDH key exchange failed (continuing without encryption): %v", err), "destination", "cedar")
-			return nil
+			// Without a key the session is plaintext. That is fatal when our own
+			// policy requires protection; otherwise carry on, but say so.
+			return a.continueWithoutEncryption(negotiation, fmt.Sprintf("ECDH key exchange failed: %v", err))
 		}
 
 		slog.Debug("🔐 CRYPTO: ECDH successful, deriving AES key...", "destination", "cedar")
@@ -1830,6 +1829,14 @@ func (a *Authenticator) setupStreamEncryption(negotiation *SecurityNegotiation) 
 		return nil
 	}
 
+	// There is nothing to derive a key from: refuse if the local policy requires
+	// protection, otherwise make sure the reported outcome says "not encrypted".
+	if err := a.continueWithoutEncryption(negotiation, fmt.Sprintf(
+		"no session key can be established (client key: %t, server key: %t, cipher: %q)",
+		clientKey != "", serverKey != "", negotiation.NegotiatedCrypto)); err != nil {
+		return err
+	}
+
 	slog.Debug("ℹ️  CRYPTO: No encryption configured", "destination", "cedar")
 	// If no ECDH keys are available, encryption is not enabled
 	// A plaintext session never installs an encryption key, so it would otherwise
@@ -1837,6 +1844,21 @@ func (a *Authenticator) setupStreamEncryption(negotiation *SecurityNegotiation) 
 	// never uses (an encrypted session freezes the digest when the key is installed).
 	// Freeze it now so the application phase -- e.g. a large collector query stream --
 	// skips the per-frame SHA256. Idempotent on an already-frozen (resumed) session.
+	a.stream.FinalizeDigests()
+	return nil
+}
+
+// continueWithoutEncryption is called when the handshake ends up without a
+// session key. A plaintext session is refused when the local policy marks
+// encryption or integrity REQUIRED; otherwise the handshake goes on in plaintext
+// and the negotiated outcome is corrected to say so (callers, the post-auth ad,
+// the session cache and the server's per-command checks read this flag).
+func (a *Authenticator) continueWithoutEncryption(negotiation *SecurityNegotiation, why string) error {
+	if a.config != nil && (a.config.Encryption == SecurityRequired || a.config.Integrity == SecurityRequired) {
+		return fmt.Errorf("local policy requires encryption but %s", why)
+	}
+	slog.Debug(fmt.Sprintf("⚠️  CRYPTO: %s (continuing without encryption)", why), "destination", "cedar")
+	negotiation.Encryption = false
 	a.stream.FinalizeDigests()
 	return nil
 }
